@@ -100,6 +100,21 @@ func verifC12Decode(n int) {
 	}
 }
 
+// results depend on the current argument only: the same checks after earlier, unrelated calls
+func verifC12Earlier() {
+	e0 := nondetBytes("earlier.s", 5)
+	Encode(string(e0))
+	d0 := nondetBytes("earlier.b", 4)
+	Decode(d0)
+}
+
+func VerifC12_DecodeAfter2() { verifC12Earlier(); verifC12Decode(2) }
+func VerifC12_DecodeAfter3() { verifC12Earlier(); verifC12Decode(3) }
+func VerifC12_EncodeAfter3() { verifC12Earlier(); verifC12Encode(3) }
+func VerifC12_EncodeAfter4() { verifC12Earlier(); verifC12Encode(4) }
+func VerifC12_T_DecodeAfter7() { verifC12Earlier(); verifC12Decode(7) }
+func VerifC12_T_EncodeAfter8() { verifC12Earlier(); verifC12Encode(8) }
+
 func VerifC12_Encode0() { verifC12Encode(0) }
 func VerifC12_Encode1() { verifC12Encode(1) }
 func VerifC12_Encode2() { verifC12Encode(2) }
